@@ -154,14 +154,18 @@ class Recorder:
             info = {}
         elif start == "calc":
             info = {"cur_orthog": "calc"}
-        else:
+        end = rng.choice([0, len(geo.sites) - 1])
+        if start not in ("raw", "calc"):
             info = {}
-            mps.canonicalize_(rng.randrange(mps.L), info=info)
+            mps.canonicalize_(end, info=info)
         L = len(geo.sites)
         forced = rng.choice([1, 2]) if ncalls >= 3 else 1
+        # the first calls visit the far end and then the middle, so that a record that is out of step with
+        # the state leaves a stretch of sites wrongly taken for canonical
+        plan = {1: (geo.sites[L - 1 - end],), 2: (geo.sites[L // 2 if end else (L - 1) // 2],)} if rng.random() < 0.75 else {}
         for step in range(1, ncalls + 1):
             n = rng.choice([1, 2, 2, 3]) if L >= 3 else rng.choice([1, 2])
-            where = tuple(rng.sample(geo.sites, n))
+            where = plan.get(step) or tuple(rng.sample(geo.sites, n))
             nrm = rng.random() < 0.5
             route = rng.choice(["local_expectation_canonical", "compute_local_expectation_canonical", "compute_local_expectation_canonical",
                                 "partial_trace_to_dense_canonical"])
@@ -578,7 +582,7 @@ def run(ctx):
     # ---- 4c. histories: ONE MPS object and ONE `info` dict threaded through consecutive calls of the 1D
     #          canonical routes at different site tuples (inplace False / True, starting from a non-canonical
     #          and from a canonicalised state); every call is judged
-    nhist = 12 if quick else 60
+    nhist = 18 if quick else 80
     mps_geos = [g for c, t, g in sweep_done if c == "mps" and len(g.sites) >= 3]
     while len(mps_geos) < (3 if quick else 10):
         g = U.build_geo("mps", rng, variant=len(mps_geos))
@@ -588,7 +592,7 @@ def run(ctx):
         geo = mps_geos[h % len(mps_geos)]
         rec = Recorder(geo, len(recorders), stats)
         recorders.append(rec)
-        rec.history(rng, 3 + h % 2, start=("raw", "canonical", "calc", "raw")[h % 4])
+        rec.history(rng, 3 + h % 2, start=("raw", "canonical", "calc", "canonical", "raw", "canonical")[h % 6])
         nasked += 1
     lap("exponent+histories")
     # ---- 5. TLC judges
